@@ -217,12 +217,18 @@ def extract(units, astre="", witness=None):
         with open(done + ".%d" % os.getpid(), "w") as f:
             f.write(str(len(batches)))
         os.replace(done + ".%d" % os.getpid(), done)
+    try:
+        os.utime(d, None)      # LRU stamp
+        if time.time() - t0 > 0.5:
+            prune_cache()
+    except OSError:
+        pass
     files = sorted(f for f in os.listdir(d) if re.match(r"b\d+\.json$", f))
     return FactBase([os.path.join(d, f) for f in files], units, route,
                     cached=(time.time() - t0 < 0.5), astre=astre)
 
 
-def prune_cache(keep=6):
+def prune_cache(keep=24):
     base = os.path.join(CACHE, "facts")
     if not os.path.isdir(base):
         return
